@@ -191,10 +191,13 @@ func cmdAll(args []string) int {
 					fmt.Printf("   ok        %s  %s  %s\n", o.Key, o.Pos, o.Detail)
 				}
 			case stViolated:
-				if kf != nil && kf.match(id, o.Key) != nil {
+				if kf != nil && kf.match(id, o.Key, o.Alt) != nil {
 					k++
 					if *verbose {
 						fmt.Printf("   known     %s  %s  %s\n", o.Key, o.Pos, o.Detail)
+						if o.Alt != "" {
+							fmt.Printf("             alt=%s\n", o.Alt)
+						}
 					}
 				} else {
 					v++
